@@ -113,6 +113,25 @@ def phase_return_oracle(history: list) -> list[Violation]:
     return out
 
 
+def disconnect_final_oracle(history: list) -> list[Violation]:
+    """A disconnect call that returned normally has taken effect: the connection it was called on is closed by then, at
+    whatever stage it was (between the two phases included) - only then can "never undone" mean anything."""
+    from .hist import Index
+
+    out: list[Violation] = []
+    ix = Index(history)
+    for c, calls in ix.disc_calls.items():
+        for sq, force, st in calls:
+            op = next((o for o in ix.ops if o.do in ("disconnect", "conn.disconnect", "force_disconnect") and o.s0 < sq and (o.s1 is None or sq < o.s1)), None)
+            if op is None or op.s1 is None or not op.ok or op.cancelled:
+                continue
+            cs = ix.closed_seq.get(c)
+            if cs is None or cs > op.s1:
+                out.append(Violation("disconnect-returned-not-closed", str(st), f"{op.actor}[{op.i}] {op.do}() on {c} (state {st} at the call) returned normally but the connection " + ("was never closed" if cs is None else "closed only later")))
+                return out
+    return out
+
+
 def reuse_oracle(history: list) -> list[Violation]:
     """conn.start outside INITIALIZED / conn.finish outside SOCKET_OPENED must raise and change nothing."""
     out: list[Violation] = []
@@ -261,7 +280,7 @@ class C05(CheckBase):
 
     def oracle(self, run: Any, scn: dict) -> list[Violation]:
         h = run.history
-        return transitions_oracle(h) + phase_return_oracle(h) + reuse_oracle(h)
+        return transitions_oracle(h) + phase_return_oracle(h) + reuse_oracle(h) + disconnect_final_oracle(h)
 
 
 CHECK = C05()
